@@ -316,7 +316,7 @@ let handle (x : sexp) : (string * string) list =
     let tsteps = List.filter_map (function
         | L [what; _; L (A "obs" :: obs); _] ->
           let name = (match what with L [A "start"; A n; L (A k :: A a :: _)] ->
-              (match k with "update" | "complete" | "error" | "done" | "close" -> Hashtbl.replace owner_of n (int_of_string a) | _ -> ()); n
+              (match k with "update" | "complete" | "error" | "done" -> Hashtbl.replace owner_of n (int_of_string a) | _ -> ()); n
                               | L [A "start"; A n; _] | L [A "go"; A n] -> n | _ -> "") in
           let cs = List.filter_map (function L [A "cancel"; A s] -> Some (ni (int_of_string s)) | _ -> None) obs in
           Some ((match Hashtbl.find_opt owner_of name with Some a -> Some (ni a) | None -> None), cs)
